@@ -65,6 +65,10 @@ def peers_for(tb, tier, rnd):
     P.append(dict(kex=['curve25519-sha256', 'foo-kex@example.org'], key=['ssh-ed25519', 'ssh-rsa-cert-v01@openssh.com'],
                   enc=['aes128-ctr', 'foo-cipher'], mac=['umac-128-etm@openssh.com'],
                   hk={'ssh-rsa-cert-v01@openssh.com': (2048, 'ssh-rsa', 1024)}))
+    # the same gss family under two mechanism suffixes (one database key covers both spellings: both are rated, both are recommended for removal)
+    P.append(dict(kex=['gss-group14-sha1-toWM5Slw5Ew8Mqkay+al2g==', 'gss-group14-sha1-eipGX3TCiQSrx573bT1o1Q==', 'gss-gex-sha1-toWM5Slw5Ew8Mqkay+al2g==',
+                       'gss-gex-sha1-eipGX3TCiQSrx573bT1o1Q==', 'gss-curve25519-sha256-toWM5Slw5Ew8Mqkay+al2g==', 'gss-curve25519-sha256-A/vxljAEU54gt9a48EiANQ==',
+                       'curve25519-sha256'], key=['ssh-ed25519'], enc=['aes256-ctr'], mac=['hmac-sha2-256'], all_sw=True))
     # the two directions of a server's KEXINIT differ: the report (and its recommendations) is about the server-to-client lists
     P.append(dict(kex=['curve25519-sha256'], key=['ssh-ed25519'], enc=['aes128-ctr', '3des-cbc', 'aes128-cbc'], mac=['hmac-sha2-256-etm@openssh.com', 'hmac-sha1'],
                   enc_c2s=['aes128-ctr'], mac_c2s=['hmac-sha2-256']))
